@@ -127,7 +127,9 @@ def run(chk: Check):
             dist["rejected:" + str(res["exc"])] = dist.get("rejected:" + str(res["exc"]), 0) + 1
             if not res["is_parser_error"] and res["exc"] not in ("AssertionError", "FileNotFoundError"):
                 cs = source_classes(c["cl"])
-                if "signed-char" in cs and res["exc"] == "KeyError":
+                if res["exc"] == "HANG":     # a compile that does not terminate (worker watchdog)
+                    chk.spec_failure("hang:" + str(res.get("hang") or "parse"), f"the compiler does not terminate on this closure: {res['msg'][:160]}", replay)
+                elif "signed-char" in cs and res["exc"] == "KeyError":
                     chk.spec_failure("native:signed-char", f"a definition using `signed char` ends in {res['exc']}: {res['msg']}", replay)
                 elif c["tag"].startswith("native:"):
                     chk.spec_failure("native:" + c["tag"][7:].replace(" ", "_") + ":" + str(res["exc"]),
@@ -137,7 +139,9 @@ def run(chk: Check):
         else:
             dist["accepted"] = dist.get("accepted", 0) + 1
             ndefs += len(res["model"]["structs"]) + len(res["model"]["messages"])
-            if res["compile_exc"]:
+            if res["compile_exc"] and res["compile_exc"].startswith("HANG"):
+                chk.spec_failure("hang:compile", "compile() of an accepted closure does not terminate: " + res["compile_exc"][:150], replay)
+            elif res["compile_exc"]:
                 chk.note(f"compile() raised on an accepted closure ({c['tag']}): {res['compile_exc'][:120]} (C15)")
             obs = observation(res)
             if obs is None:
@@ -184,7 +188,9 @@ def run(chk: Check):
         "gcc x86-64 natural alignment (System V); other ABIs not modelled",
         "MATLAB: no interpreter here - assignment order and literal right-hand sides only (char is stored as int8: compared as 1-byte)",
         "JavaScript carries no widths: names, order, lengths, char/not-char, ids, hashes only",
-        "constant expressions in the Coq model: integer + - * over constants (// / % are exercised on the implementation only)",
+        "constant / length expressions in the Coq model: integer literals, constants, + - * and true division by a positive literal "
+        "(value a float, length = int() of it; exact rationals = the implementation's floats for the generated divisors 2..64); "
+        "other divisors, division by a constant, // and % are exercised on the implementation only",
         "theorems are over every accepted closure (array lengths < 1 are rejected by add_fields, modelled)",
     ]
     if bad:
